@@ -19,6 +19,12 @@ def impls():
     from aiokafka.record import default_records as dr, legacy_records as lr, memory_records as mr
     from aiokafka.record._crecords import (DefaultRecordBatch as DC, DefaultRecordBatchBuilder as DBC, LegacyRecordBatch as LC,
                                            LegacyRecordBatchBuilder as LBC, MemoryRecords as MC)
+    # _MemoryRecordsPy instantiates the module-level names LegacyRecordBatch / DefaultRecordBatch, which are the COMPILED
+    # classes whenever the extensions can be imported: the pure-Python splitter would then be paired with the compiled
+    # batch decoders and the pure-Python batch decoders would never run (this stand-in did exactly that until round 6).
+    # Bind them the way AIOKAFKA_NO_EXTENSIONS does; the compiled MemoryRecords has its own cimported classes.
+    mr.LegacyRecordBatch = lr._LegacyRecordBatchPy
+    mr.DefaultRecordBatch = dr._DefaultRecordBatchPy
     return {
         "py": {"v2": dr._DefaultRecordBatchPy, "v2b": dr._DefaultRecordBatchBuilderPy, "v01": lr._LegacyRecordBatchPy,
                "v01b": lr._LegacyRecordBatchBuilderPy, "mem": mr._MemoryRecordsPy},
@@ -63,15 +69,20 @@ def decode(impl, data, validate=False):
     try:
         m = I["mem"](bytes(data))
         while True:
+            announced = bool(m.has_next())
             b = m.next_batch()
+            if announced != (b is not None):
+                # has_next() is how the fetcher decides whether a response holds a record at all
+                return ("exc", "has_next() said %s but next_batch() returned %s" % (announced, "None" if b is None else "a batch"),
+                        out, crcs)
             if b is None:
                 break
             if validate:
                 crcs.append(bool(b.validate_crc()))
             for r in b:
                 out.append((r.offset, r.timestamp, r.key, r.value, [(k, v) for k, v in r.headers]))
-    except (SystemError, MemoryError):
-        raise
+    except (SystemError, MemoryError, TimeoutError):
+        raise               # TimeoutError: the caller's SIGALRM handler (a decode that does not terminate)
     except Exception as e:
         return ("exc", type(e).__name__, out, crcs)
     return ("ok", out, crcs)
